@@ -10,18 +10,18 @@ import (
 
 // Worlds maps property ids to their world.
 var Worlds = map[string]core.World{
-	"C01": roundTripWorld{prop: "C01"},
-	"C02": foreignWorld{},
-	"C03": roundTripWorld{prop: "C03"},
-	"C05": crashWorld{},
-	"C09": fragWorld{},
-	"C10": ioFaultWorld{},
-	"C04": liveWorld{prop: "C04"},
-	"C06": liveWorld{prop: "C06"},
-	"C14": liveWorld{prop: "C14"},
-	"C19": lineWorld{},
-	"C12": playWorld{},
-	"C13": recWorld{},
+	"C01":  roundTripWorld{prop: "C01"},
+	"C02":  foreignWorld{},
+	"C03":  roundTripWorld{prop: "C03"},
+	"C05":  crashWorld{},
+	"C09":  fragWorld{},
+	"C10":  ioFaultWorld{},
+	"C04":  liveWorld{prop: "C04"},
+	"C06":  liveWorld{prop: "C06"},
+	"C14":  liveWorld{prop: "C14"},
+	"C19":  lineWorld{},
+	"C12":  playWorld{},
+	"C13":  recWorld{},
 	"C17a": portHistWorld{},
 }
 
